@@ -48,6 +48,11 @@ pub struct C14Case {
     /// for the constructor entry points: valid signals (indices into SAFE) listed before `n`
     #[serde(default)]
     pub list_before: Vec<u8>,
+    /// entry 12 (`Handle::add_signal`): state of the object the call is made on - 0 an open
+    /// instance, 1 the instance was closed (`close()`) beforehand, 2 the handle has outlived its
+    /// instance (dropped beforehand). The documented refusals do not depend on that state.
+    #[serde(default)]
+    pub object_state: u8,
 }
 
 pub fn numbers() -> Vec<i32> {
@@ -69,10 +74,12 @@ pub fn strategy() -> BoxedStrategy<C14Case> {
         vec(0u8..6, 0..5),
         prop_oneof![3 => Just(vec![]), 2 => vec(0u8..3, 1..3)],
         prop_oneof![1 => Just(vec![]), 1 => vec(0u8..6, 1..4)],
+        0u8..3,
     )
-        .prop_map(|(entry, n, prefix, unchecked_prefix, list_before)| {
+        .prop_map(|(entry, n, prefix, unchecked_prefix, list_before, object_state)| {
             let list_before = if matches!(entry, 9 | 10 | 11 | 13) { list_before } else { vec![] };
-            C14Case { entry, n, prefix, unchecked_prefix, list_before }
+            let object_state = if entry == 12 { object_state } else { 0 };
+            C14Case { entry, n, prefix, unchecked_prefix, list_before, object_state }
         })
         .boxed()
 }
@@ -177,7 +184,18 @@ fn child(case: &C14Case, fd: i32) {
         }
     }
     // an iterator instance for entry 12, created before the snapshot
-    let existing = if case.entry == 12 { Some(Signals::new(&[libc::SIGWINCH]).expect("Signals::new")) } else { None };
+    let mut existing = if case.entry == 12 { Some(Signals::new(&[libc::SIGWINCH]).expect("Signals::new")) } else { None };
+    let mut outliving_handle: Option<signal_hook::iterator::Handle> = None;
+    if let Some(ex) = existing.as_ref() {
+        match case.object_state % 3 {
+            1 => ex.handle().close(),
+            2 => outliving_handle = Some(ex.handle()),
+            _ => {}
+        }
+    }
+    if outliving_handle.is_some() {
+        existing = None;
+    }
     let d0 = dispositions();
     let f0 = open_fd_count();
     let flag = Arc::new(AtomicBool::new(false));
@@ -246,7 +264,10 @@ fn child(case: &C14Case, fd: i32) {
                 o
             }
             12 => {
-                let h = existing.as_ref().unwrap().handle();
+                let h = match outliving_handle.as_ref() {
+                    Some(h) => h.clone(),
+                    None => existing.as_ref().unwrap().handle(),
+                };
                 outcome_of(std::panic::catch_unwind(std::panic::AssertUnwindSafe(|| h.add_signal(n)))).0
             }
             13 => {
@@ -352,7 +373,7 @@ pub fn run_case(case: &C14Case) -> CaseReport {
     let entry = ENTRIES[case.entry as usize % 16];
     let exp = expect(case.entry % 16, case.n);
     let find = |k: &str| recs.iter().find(|r| r["k"] == k);
-    rep.hash = hash_of(&(case.entry, case.n, &case.prefix, &case.unchecked_prefix, &case.list_before));
+    rep.hash = hash_of(&(case.entry, case.n, &case.prefix, &case.unchecked_prefix, &case.list_before, case.object_state));
     if !case.list_before.is_empty() {
         rep.class("constructor-list-with-valid-prefix");
     }
@@ -365,6 +386,9 @@ pub fn run_case(case: &C14Case) -> CaseReport {
         Expect::Err => "expect-err",
         Expect::Ok => "expect-ok",
     });
+    if case.object_state % 3 != 0 {
+        rep.class(if case.object_state % 3 == 1 { "handle-of-a-closed-instance" } else { "handle-that-outlived-its-instance" });
+    }
     if case.entry >= 14 {
         rep.class("unchecked-entry");
     }
@@ -467,7 +491,7 @@ fn extra(def: &PropDef, args: &WorkerArgs, report: &mut WorkerReport) {
     for entry in 0..16u8 {
         for n in &nums {
             for p in &prefixes {
-                let case = C14Case { entry, n: *n, prefix: p.clone(), unchecked_prefix: vec![], list_before: vec![] };
+                let case = C14Case { entry, n: *n, prefix: p.clone(), unchecked_prefix: vec![], list_before: vec![], object_state: 0 };
                 let rep = run_case(&case);
                 if let Some(v) = report.absorb(def, &rep, &known) {
                     report.violation = Some((v.key, v.msg, serde_json::to_value(&case).unwrap()));
@@ -476,11 +500,22 @@ fn extra(def: &PropDef, args: &WorkerArgs, report: &mut WorkerReport) {
             }
         }
     }
+    // Handle::add_signal on a closed instance and on a handle that outlived its instance
+    for st in [1u8, 2] {
+        for n in &nums {
+            let case = C14Case { entry: 12, n: *n, prefix: vec![1], unchecked_prefix: vec![], list_before: vec![], object_state: st };
+            let rep = run_case(&case);
+            if let Some(v) = report.absorb(def, &rep, &known) {
+                report.violation = Some((v.key, v.msg, serde_json::to_value(&case).unwrap()));
+                return;
+            }
+        }
+    }
     // every constructor x refused boundary numbers, listed after one or two valid signals
     for entry in [9u8, 10, 11, 13] {
         for n in [-1, 0, 4, 9, 19, 32, 65, 127, 128, 1 << 20] {
             for lb in [vec![1u8], vec![0, 3]] {
-                let case = C14Case { entry, n, prefix: vec![], unchecked_prefix: vec![], list_before: lb };
+                let case = C14Case { entry, n, prefix: vec![], unchecked_prefix: vec![], list_before: lb, object_state: 0 };
                 let rep = run_case(&case);
                 if let Some(v) = report.absorb(def, &rep, &known) {
                     report.violation = Some((v.key, v.msg, serde_json::to_value(&case).unwrap()));
@@ -493,7 +528,7 @@ fn extra(def: &PropDef, args: &WorkerArgs, report: &mut WorkerReport) {
     // registration of that very signal
     for entry in 0..14u8 {
         for (k, n) in [libc::SIGILL, libc::SIGFPE, libc::SIGSEGV].iter().enumerate() {
-            let case = C14Case { entry, n: *n, prefix: vec![0], unchecked_prefix: vec![k as u8], list_before: vec![] };
+            let case = C14Case { entry, n: *n, prefix: vec![0], unchecked_prefix: vec![k as u8], list_before: vec![], object_state: 0 };
             let rep = run_case(&case);
             if let Some(v) = report.absorb(def, &rep, &known) {
                 report.violation = Some((v.key, v.msg, serde_json::to_value(&case).unwrap()));
@@ -515,7 +550,7 @@ fn replay(v: &Value) -> CaseReport {
 pub static C14: PropDef = PropDef {
     id: "C14",
     prefixes: &["C14/"],
-    rule: "forkprobe: entry point (16) x signal number ([-2,130] + extreme integers) x generated prefix of 0-4 valid registrations, one forked child per case; the entry x boundary-number table is enumerated completely by worker 0 (thorough: the full [-2,130] range with 4 prefixes), the rest is proptest-sampled. Oracle: independent expectation table (panic / error / ok), all 64 dispositions unchanged after a refusal, captured Arc counts back to 1, handed-over descriptors closed, earlier actions fire exactly once, a later valid registration and the iterator front-end still work, the child survives. Non-trivial = refused input on a checked entry point with >=1 prior registration; distinct = (entry, number, prefix)",
+    rule: "forkprobe: entry point (16; Handle::add_signal also on a closed instance and on a handle that outlived its instance) x signal number ([-2,130] + extreme integers) x generated prefix of 0-4 valid registrations, one forked child per case; the entry x boundary-number table is enumerated completely by worker 0 (thorough: the full [-2,130] range with 4 prefixes), the rest is proptest-sampled. Oracle: independent expectation table (panic / error / ok), all 64 dispositions unchanged after a refusal, captured Arc counts back to 1, handed-over descriptors closed, earlier actions fire exactly once, a later valid registration and the iterator front-end still work, the child survives. Non-trivial = refused input on a checked entry point with >=1 prior registration; distinct = (entry, number, prefix)",
     assumptions: &[
         "the OS-acceptance table (1..=64 minus 32, 33, KILL, STOP) is glibc/Linux specific and written independently of the library",
         "real signals are raised only for signals the case itself registered (taken over) - anything else would kill the child by design",
